@@ -154,9 +154,16 @@ pub fn run_random(rec: &mut Rec, seed: u64, run: u64, nops: usize) {
                 let have = f.w.balance(&lp_user, &lpa);
                 let amt = gen::log_uniform(&mut r, 1, (have / 20).max(2));
                 dpre = f.w.digest();
-                rs = f.w.cw20_send(&lp_user, &tp.lp.clone(), &tp.trio.clone(), amt, &Cw20HookMsg::WithdrawLiquidity {});
+                // one in eight: the direct withdrawal message with a coin attached instead of LP tokens handed in
+                let direct = r.gen_range(0..8) == 0;
+                rs = if direct {
+                    let dn = match &tp.assets[0] { A::Native(d) => d.clone(), _ => "uwhale".to_string() };
+                    f.w.exec(&lp_user, &tp.trio.clone(), &ExecuteMsg::WithdrawLiquidity {}, &[coin(amt.min(1_000_000), dn)])
+                } else {
+                    f.w.cw20_send(&lp_user, &tp.lp.clone(), &tp.trio.clone(), amt, &Cw20HookMsg::WithdrawLiquidity {})
+                };
                 dpost = f.w.digest();
-                name = "withdraw"; actor = "lpuser"; args = json!({"amt": s(amt), "amp": cur.to_string()});
+                name = if direct { "wdirect" } else { "withdraw" }; actor = "lpuser"; args = json!({"amt": s(if direct { amt.min(1_000_000) } else { amt }), "amp": cur.to_string()});
             }
         }
         ev.insert("ev".into(), json!(name));
